@@ -401,12 +401,12 @@ func main() {
 			"date":  {"2024-02-29", "20240229", "123456789-12-31", "1234567891231"},
 			"roman": {"MMMCMXCIX", "mmmdccclxxxviii", "MDCCCCLXXXXVIIII"},
 			"sem":   {"v1.2.3-rc.1+build.5", "18446744073709551615.0.0-a.b", "1.0.0-0.3.7+exp.sha.5114f85"},
-			"size":  {"12", "1024", "7 B", "1 024 KiB", `{"value":1,"unit":"KiB","x":[1,{"a":null}]}`, `"18 446 744 073 709 551 615 B"`, "16EiB", `{"x":[[1],2],"value":1,"unit":"KiB"}`, `{"y":{"a":[[],{}]},"unit":"B","value":0}`},
+			"size":  {"12", "1024", "7 B", "1 024 KiB", `{"value":1,"unit":"KiB","x":[1,{"a":null}]}`, `"18 446 744 073 709 551 615 B"`, "16EiB", "1.01KiB", "0.5 GiB", "1e3", "1.0e+2 kB", `"1.50 MB"`, `{"x":[[1],2],"value":1,"unit":"KiB"}`, `{"y":{"a":[[],{}]},"unit":"B","value":0}`},
 			"uu":    {"urn:uuid:ed7059f3-6fc0-4b0c-9b7a-2ea5a0b4b8f1", "URN:uuid:ED7059F3-6FC0-4B0C-9B7A-2EA5A0B4B8F1", "ed7059f3-6fc0-4b0c-9b7a-2ea5a0b4b8f1"},
 		}
 		for _, mode := range []int{0, 1, 3} {
 			mode := mode
-			r.Phase(fmt.Sprintf("every substring of valid texts and every extension by 1..12 bytes (4 fill bytes) into every one-input entry point x rule subsets, limit mode %d", mode), "complete for the listed texts", func() {
+			r.Phase(fmt.Sprintf("every substring of valid texts, every extension by 1..12 bytes on one side (10 fill bytes incl. white space) and by 1..4 bytes on both sides, into every one-input entry point x rule subsets, limit mode %d", mode), "complete for the listed texts", func() {
 				setLimits(mode)
 				r.Parallel(int64(len(entries)), 1, func(w *mc.W, ei int64) {
 					e := entries[ei]
@@ -427,15 +427,53 @@ func main() {
 								do(v[i:j])
 							}
 						}
-						for _, fill := range []string{"0", "a", "-", "\xff"} {
+						for _, fill := range []string{"0", "a", "-", "\xff", " ", "\n", "\t", ".", "9", "\x00"} {
 							for k := 1; k <= 12; k++ {
 								do(v + strings.Repeat(fill, k))
 								do(strings.Repeat(fill, k) + v)
 							}
+							for k1 := 1; k1 <= 4; k1++ {
+								for k2 := 1; k2 <= 4; k2++ {
+									do(strings.Repeat(fill, k1) + v + strings.Repeat(fill, k2))
+								}
+							}
 						}
+						do(v + "\r\n")
+						do(v + "\r\n ")
+						do(" \t" + v + "\r\n ")
 					}
 				})
 				r.Serial(func(w *mc.W) { w.Outcome("substrings") })
+				reset()
+			})
+		}
+		// run-length inflation: one byte of a valid text repeated 2..130 times (a digit run, a fraction, a separator run of any length)
+		for _, mode := range []int{0, 1} {
+			mode := mode
+			r.Phase(fmt.Sprintf("run-length inflation of the valid texts (each byte in turn repeated 2..130 times) into every one-input entry point x rule subsets, limit mode %d", mode), "complete for the listed texts", func() {
+				setLimits(mode)
+				r.Parallel(int64(len(entries)), 1, func(w *mc.W, ei int64) {
+					e := entries[ei]
+					for _, v := range valids[e.pkg] {
+						for i := 0; i < len(v); i++ {
+							if i > 0 && v[i] == v[i-1] {
+								continue // same run as the previous position
+							}
+							for l := 2; l <= 130; l++ {
+								m := v[:i] + strings.Repeat(v[i:i+1], l) + v[i+1:]
+								for _, rule := range e.rules {
+									if len(e.rules) > 8 && rule != 0 && rule != 6 && rule != 14 && rule != 15 && rule != -1 {
+										continue
+									}
+									w.Point()
+									w.NonTrivial()
+									p1.Do(w, oneArg{Entry: int(ei), Name: e.name, Rule: rule, Limit: mode, In: mc.Bin(m)})
+								}
+							}
+						}
+					}
+				})
+				r.Serial(func(w *mc.W) { w.Outcome("inflated runs") })
 				reset()
 			})
 		}
